@@ -118,4 +118,31 @@ Section PopEquiv.
     induction new as [|g' new IH]; intros [|g gs] [|f fs] L1 L2; cbn in *; try reflexivity; try discriminate.
     rewrite IH by lia. unfold update_row. cbn [fst snd]. destruct (geq g' g); reflexivity.
   Qed.
+  (* Population.evaluate: only the rows without a fitness are evaluated, in row order; the others keep their value *)
+  Theorem evaluate_rows (f : G -> Z) p : length (pgo p) = length (pfo p) -> rows_o (gen_evaluate f p) = evaluate f (rows_o p).
+  Proof.
+    unfold rows_o, gen_evaluate, evaluate. cbn [pgo pfo]. generalize (pgo p) (pfo p). intros gs. induction gs as [|g gs IH]; intros [|fo fs] L; cbn in *; try reflexivity; try discriminate.
+    rewrite IH by lia. unfold eval_row. cbn [fst snd]. destruct fo; reflexivity.
+  Qed.
+  Theorem evaluate_requests_eq p : gen_evaluate_requests p = requests (rows_o p).
+  Proof. reflexivity. Qed.
+  Lemma map2_length {A B C} (h : A -> B -> C) : forall a b, length (map2 h a b) = Nat.min (length a) (length b).
+  Proof. induction a as [|x a IH]; intros [|y b]; cbn; try reflexivity. now rewrite IH. Qed.
+  Lemma update_genome_aligned p new : length (pgo p) = length (pfo p) -> length new = length (pgo p) ->
+    length (pgo (gen_update_genome geq p new)) = length (pfo (gen_update_genome geq p new)).
+  Proof. intros L1 L2. unfold gen_update_genome, rows_ne. cbn [pgo pfo]. rewrite !map2_length, combine_length. lia. Qed.
+  (* the mutation / crossover operators of the SEA family: rows whose genome changed lose their fitness and are re-evaluated (if the
+     operator evaluates), the others keep genome and fitness and are NOT evaluated again *)
+  Theorem GaussianMutation_rows f ev p new : length (pgo p) = length (pfo p) -> length new = length (pgo p) ->
+    rows_o (gen_GaussianMutation_call geq f ev p new) = evaluate f (update_genome geq (rows_o p) new).
+  Proof. intros L1 L2. unfold gen_GaussianMutation_call. now rewrite evaluate_rows, update_genome_rows by (try apply update_genome_aligned; assumption). Qed.
+  Theorem UniformMutation_rows f ev p new : length (pgo p) = length (pfo p) -> length new = length (pgo p) ->
+    rows_o (gen_UniformMutation_call geq f ev p new) = evaluate f (update_genome geq (rows_o p) new).
+  Proof. intros L1 L2. unfold gen_UniformMutation_call. now rewrite evaluate_rows, update_genome_rows by (try apply update_genome_aligned; assumption). Qed.
+  Theorem ArithmeticCrossover_rows f ev p new : length (pgo p) = length (pfo p) -> length new = length (pgo p) ->
+    rows_o (gen_ArithmeticCrossover_call geq f ev p new) = if ev then evaluate f (update_genome geq (rows_o p) new) else update_genome geq (rows_o p) new.
+  Proof.
+    intros L1 L2. unfold gen_ArithmeticCrossover_call. destruct ev; [|now apply update_genome_rows].
+    now rewrite evaluate_rows, update_genome_rows by (try apply update_genome_aligned; assumption).
+  Qed.
 End PopEquiv.
